@@ -465,7 +465,7 @@ Proof.
       change (consec (a :: b :: rest') e r) with ((e = a /\ r = b) \/ consec (b :: rest') e r).
       split.
       * intros [[?|(?&?&?)]|[? ?]]; auto.
-      * intros [?|[? [[? ?]|?]]]; auto. subst. left; right; auto.
+      * intros [?|[? [[? ?]|?]]]; auto; subst; left; right; auto.
 Qed.
 
 Lemma consec_In l a b : consec l a b -> In a l /\ In b l.
